@@ -270,6 +270,10 @@ class ContentsFlow:
             return set()
         if isinstance(st, ast.If):
             t = st.test
+            if isinstance(t, ast.BoolOp) and isinstance(t.op, ast.And) and len(t.values) == 2:
+                # if A and B: body else: orelse  ==  if A: (if B: body else: orelse) else: orelse
+                inner = ast.If(test=t.values[1], body=st.body, orelse=st.orelse)
+                return self.stmt(ast.If(test=t.values[0], body=[inner], orelse=st.orelse), state)
             kind = _is_digest_mismatch(t, self.var, self.expected)
             if kind is not None:
                 ok = self.verified(state)
